@@ -210,6 +210,11 @@ def r3_swaps(ctx):
             "pools.insert(pool, pool_state) after swap_many", "the pool state is not written back after swap_many (%s)" % [sig(i[1]) for i in ins])
     # the rewriting closure
     fe = [c for c in cls if q.calls_to(c, "CoinMapping::insert_coin")]
+    if not fe and q.calls_to(b, "CoinMapping::insert_coin"):
+        # the per-request step is written as a `for` loop in the worker itself instead of a closure handed to for_each: same operations, a shape
+        # this rule does not read — no verdict on the per-request clauses (the batch-level clauses above were decided)
+        r.undecided("rewrite/closure", "the per-request rewriting step is a loop in the worker, not a closure: per-request clauses not decided", "%s:%s" % (b.file, b.line))
+        return
     r.check(len(fe) == 1, "rewrite/closure", "one rewriting closure", "%d rewriting closures" % len(fe))
     if not fe:
         return
@@ -268,6 +273,11 @@ def r3_deposits(ctx):
     r.check(len(ins) == len(deps) and all(sig(q.novers(i[1])).startswith("SmtMapping::insert($2.pools, $1, pool_state") for i in ins), "pool-written-back",
             "every deposited-into pool state is written back under the pool key", "pool writes: %s" % [sig(i[1]) for i in ins])
     fe = [c for c in cls if q.calls_to(c, "CoinMapping::insert_coin")]
+    if not fe and q.calls_to(b, "CoinMapping::insert_coin"):
+        # the per-request step is written as a `for` loop in the worker itself instead of a closure handed to for_each: same operations, a shape
+        # this rule does not read — no verdict on the per-request clauses (the batch-level clauses above were decided)
+        r.undecided("rewrite/closure", "the per-request rewriting step is a loop in the worker, not a closure: per-request clauses not decided", "%s:%s" % (b.file, b.line))
+        return
     r.check(len(fe) == 1, "rewrite/closure", "one rewriting closure", "%d" % len(fe))
     if not fe:
         return
@@ -340,6 +350,11 @@ def r3_withdrawals(ctx):
     ins = q.call_exprs(b, "SmtMapping::insert")
     r.check(len(ins) == 1 and sig(q.novers(ins[0][1])) == "SmtMapping::insert($2.pools, $1, pool_state)", "pool-written-back", "pool state written back", "pool writes: %s" % [sig(i[1]) for i in ins])
     fe = [c for c in cls if q.calls_to(c, "CoinMapping::insert_coin")]
+    if not fe and q.calls_to(b, "CoinMapping::insert_coin"):
+        # the per-request step is written as a `for` loop in the worker itself instead of a closure handed to for_each: same operations, a shape
+        # this rule does not read — no verdict on the per-request clauses (the batch-level clauses above were decided)
+        r.undecided("rewrite/closure", "the per-request rewriting step is a loop in the worker, not a closure: per-request clauses not decided", "%s:%s" % (b.file, b.line))
+        return
     r.check(len(fe) == 1, "rewrite/closure", "one rewriting closure", "%d" % len(fe))
     if not fe or not wd:
         return
@@ -385,7 +400,8 @@ def r5_only_selected(ctx):
         n += 1
         e = b.rec_call(t, bi)
         k = sig(e[2][1])
-        r.check(k in ("Transaction::output_coinid($2, 0)", "Transaction::output_coinid($2, 1)"), "key@%s/%s" % (b.nname.replace(MM, "").replace("{closure#", "c").replace("}", ""), k[-3:-1]),
+        r.check(k in ("Transaction::output_coinid($2, 0)", "Transaction::output_coinid($2, 1)", "Transaction::output_coinid(elem($3), 0)", "Transaction::output_coinid(elem($3), 1)"),
+                "key@%s/%s" % (b.nname.replace(MM, "").replace("{closure#", "c").replace("}", ""), k[-3:-1]),
                 "keyed by %s of the closure's element" % k, "a coin keyed by %s is written during pool processing" % k, b.where(bi))
     r.floor("coin writes in pool processing", n, 6)
     # every selected request is settled: the per-request closures of the three workers rewrite output 0 on every path (a request that is counted in the
@@ -406,20 +422,34 @@ def r5_only_selected(ctx):
     for name, sel, worker in (("process_swaps", "get_swap_transactions", "process_swaps_for_single_pool"), ("process_deposits", "get_deposit_transactions", "process_deposits_for_single_pool"),
                               ("process_withdrawals", "get_withdrawal_transactions", "process_withdrawals_for_single_pool")):
         b = ctx.body(MM + name, r)
-        reqs = [(s, e) for l, sites in b.defs().items() for s in sites for e in [b.rec_def(s)] if q.is_call(e, sel)]
-        r.check(len(reqs) == 1 and sig(q.novers(reqs[0][1])) == "melmint::%s(state)" % sel, name + "/selected", "requests = %s(state)" % sel, "requests: %s" % [sig(x[1]) for x in reqs])
-        cl = prog.closures_of(b)
-        wk = [(c, bi, e) for c in cl for bi, e in q.call_exprs(c, worker)]
+        reqs = sorted({sig(q.novers(e)) for l, sites in b.defs().items() for s in sites for e in [b.rec_def(s)] if q.is_call(e, sel)})
+        r.check(reqs == ["melmint::%s(state)" % sel], name + "/selected", "requests = %s(state)" % sel, "requests: %s" % reqs)
+        # one worker call per pool of extract_pool_keys_sorted(selected), on transactions_for_pool(selected, that pool) — the per-pool step may be
+        # a closure handed to for_each or the body of a `for` loop
+        wk = [(c, bi, e) for c in prog.all_nested(b) for bi, e in q.call_exprs(c, worker)]
         r.check(len(wk) == 1, name + "/worker", "one worker call per pool", "%d worker calls" % len(wk))
         for c, bi, e in wk:
-            lst = e[2][2]
+            lst = mir.strip(e[2][2])
             dd = q.var_def_exprs(c, lst[1]) if lst[0] == "var" else []
-            s = sig(dd[0][1]) if len(dd) == 1 else sig(lst)
-            r.check(s == "melmint::transactions_for_pool(^%s, $2)" % [k for k in q.closure_captures(b, c.nname) if "req" in k][0].replace("_ref__", ""), name + "/list",
-                    "worker list = transactions_for_pool(selected, pool)", "worker list = %s" % s, c.where(bi))
-            r.check(sig(e[2][0]) == "$2", name + "/pool", "for the iterated pool", "pool arg = %s" % sig(e[2][0]), c.where(bi))
-        fe = q.call_exprs(b, "for_each")
-        r.check(len(fe) == 1 and q.is_call(fe[0][1][2][0], "extract_pool_keys_sorted"), name + "/pools", "iterates extract_pool_keys_sorted(selected)", "iterates %s" % [sig(x[1][2][0])[:80] for x in fe])
+            le = mir.strip(dd[0][1]) if len(dd) == 1 else lst
+            pool_arg = mir.strip(e[2][0])
+            if c is b:
+                lsrc = [l for l in q.loop_with_source(b, lambda s_: True) if bi in l[1]]
+                okp = bool(lsrc) and pool_arg == ("elem", lsrc[0][3]) and (q.is_call(mir.strip(lsrc[0][3]), "extract_pool_keys_sorted") or
+                                                                         any(q.is_call(mir.strip(d[1]), "extract_pool_keys_sorted") for d in (q.var_def_exprs(b, lsrc[0][3][1]) if lsrc[0][3][0] == "var" else [])))
+                r.check(okp, name + "/pools", "iterates extract_pool_keys_sorted(selected)", "the worker's pool argument %s is not the element of a loop over extract_pool_keys_sorted(..)" % sig(pool_arg)[:80], b.where(bi))
+                okl = q.is_call(le, "transactions_for_pool") and sig(q.novers(mir.strip(le[2][1]))) == sig(q.novers(pool_arg)) and \
+                    any(q.is_call(mir.strip(d[1]), sel) for d in (q.var_def_exprs(b, mir.strip(le[2][0])[1]) if mir.strip(le[2][0])[0] == "var" else [])) or \
+                    (q.is_call(le, "transactions_for_pool") and q.is_call(mir.strip(le[2][0]), sel) and sig(q.novers(mir.strip(le[2][1]))) == sig(q.novers(pool_arg)))
+                r.check(okl, name + "/list", "worker list = transactions_for_pool(selected, pool)", "worker list = %s" % sig(le)[:120], b.where(bi))
+            else:
+                s_ = sig(le)
+                capn = [k for k in q.closure_captures(b, c.nname) if "req" in k]
+                r.check(bool(capn) and s_ == "melmint::transactions_for_pool(^%s, $2)" % capn[0].replace("_ref__", ""), name + "/list",
+                        "worker list = transactions_for_pool(selected, pool)", "worker list = %s" % s_, c.where(bi))
+                r.check(sig(e[2][0]) == "$2", name + "/pool", "for the iterated pool", "pool arg = %s" % sig(e[2][0]), c.where(bi))
+                fe = q.call_exprs(b, "for_each")
+                r.check(len(fe) == 1 and q.is_call(fe[0][1][2][0], "extract_pool_keys_sorted"), name + "/pools", "iterates extract_pool_keys_sorted(selected)", "iterates %s" % [sig(x[1][2][0])[:80] for x in fe])
     tfp = ctx.body(MM + "transactions_for_pool", r)
     c = prog.closures_of(tfp)[0]
     rr = q.ret_assignments(c)
